@@ -80,7 +80,8 @@ pub fn generate(check: &str, tier: &str, seed: u64, run: u64) -> Case {
         }
         "C10" => gen_arc(&mut rng, true),
         "C11" => gen_arc(&mut rng, false),
-        "C14" => match rng.below(3) {
+        "C14" => match rng.below(4) {
+            3 => gen_many_stores(&mut rng),
             0 => gen_litmus_any(&mut rng, false),
             1 => {
                 let pr = sync_profile(&mut rng, "");
@@ -186,7 +187,7 @@ pub fn judge(check: &str, tier: &str, case: &Case, seed: u64, run: u64) -> CaseR
     // (their validity, O2/O3b, still is). The finding itself is probed by fixed witness programs.
     let ws = witnesses(check);
     let is_witness = (run as usize) < ws.len();
-    if (has_try_acquire(&case.program) || has_unpark_order_sensitivity(&case.program) || (check != "C02" && has_sc_fence_order_sensitivity(&case.program)))
+    if (has_yield(&case.program) || has_try_acquire(&case.program) || has_unpark_order_sensitivity(&case.program) || (check != "C02" && has_sc_fence_order_sensitivity(&case.program)))
         && !is_witness
     {
         opts.o1 = None;
@@ -214,6 +215,19 @@ pub fn judge(check: &str, tier: &str, case: &Case, seed: u64, run: u64) -> CaseR
         }
     }
     rep
+}
+
+/// `yield_now` has scheduling semantics of its own in loom (the yielder is not resumed while
+/// another thread can run; property C18): the reference treats it as a no-op, so completeness is
+/// not demanded of programs that yield outside the C18 family (validity still is).
+pub fn has_yield(p: &Program) -> bool {
+    p.threads.iter().flatten().any(|op| {
+        let mut o = op;
+        while let Op::If { then, .. } = o {
+            o = then;
+        }
+        matches!(o, Op::Yield)
+    })
 }
 
 pub fn has_try_acquire(p: &Program) -> bool {
